@@ -3469,7 +3469,7 @@ class SFTPClientFile:
             read_to_end = size is None or size < 0
 
             if read_to_end:
-                size = (await self._end()) - offset
+                size = max((await self._end()) - offset, 0)
 
             try:
                 # When reading to the end of the file, always use the
